@@ -87,7 +87,7 @@ def replay(beh: list[dict], host: str, variant: int, attached_operand: bool) -> 
         fp = f'{op}/{form}/{o[0]}'
         b: Any
         bdoc = None
-        if op in ('u+', 'u-'):
+        if op in ('u+', 'u-', 'leaf'):
             b = None
         elif o[0] == 'int':
             b = o[1] if (k + variant) % 2 else decimal.Decimal(o[1])
@@ -104,7 +104,18 @@ def replay(beh: list[dict], host: str, variant: int, attached_operand: bool) -> 
         exc = ''
         r = None
         try:
-            if op == 'u-':
+            if op == 'leaf':
+                # every node's value is read first (whatever a node remembers about its operands is now stale-able),
+                # then the literal is assigned through its own token
+                for _, sub in tree.walk(a):
+                    if hasattr(type(sub), 'value'):
+                        sub.value
+                if doc is not None:
+                    tree.content(doc)
+                lits = [t for t in a.tokens if isinstance(t, models.Number)]
+                lits[o[1] - 1].value = decimal.Decimal(ev['leaf'])
+                r = a
+            elif op == 'u-':
                 r = -a
             elif op == 'u+':
                 r = +a
@@ -227,7 +238,7 @@ def run(rep: common.Reporter, tier: str, kinds: Optional[set] = None, depth: Opt
     depth = depth or (2 if tier == 'quick' else 3)
     inits = '{' + ','.join(f'"{i}"' for i in INITS) + '}'
     behs: list[str] = []
-    r = tlc.run('NumExpr', dict(Depth=str(depth), Inits=inits, Operands=OPERANDS), invariants=['ValueOK'],
+    r = tlc.run('NumExpr', dict(Depth=str(depth), Inits=inits, Operands=OPERANDS, LeafVals='{5, 7}'), invariants=['ValueOK'],
                 constraints=['Emit'], on_print=lambda p: behs.append(p[1]), timeout=3000)
     if not r.ok:
         rep.machinery_error(f'NumExpr TLC run failed: {r.violated} {r.tail[-600:]}')
